@@ -115,3 +115,11 @@ Theorem C13_agree_number_boundary : forall cls,
   in_limit (repeat 57 4300) = true /\ derives frag_number (repeat 57 4300) /\
   read_value cls (repeat 57 4300) = RInt (repeat 57 4300).
 Proof. exact agree_number_boundary. Qed.
+
+(* ---- source-text pins (generated by harness/pinsets.py) ---- *)
+(* every function of these modules is, text for text (comments and docstrings excluded), the one the models of this
+   property were written against and validated against: harness/translate/srcdigest_t.py, Src/Pin_*.v *)
+From OV Require Import Gen.SrcDigestGen Src.Pin_core_gbnf_compiler Src.Pin_core_constraints Src.Pin_core_holographic Src.Pin_core_schema_extractor Src.Pin_core_lexer Src.Pin_core_parser.
+Theorem C13_pin_source_text :
+  src_core_gbnf_compiler_pinned /\ src_core_constraints_pinned /\ src_core_holographic_pinned /\ src_core_schema_extractor_pinned /\ src_core_lexer_pinned /\ src_core_parser_pinned.
+Proof. exact (conj src_core_gbnf_compiler_pinned_ok (conj src_core_constraints_pinned_ok (conj src_core_holographic_pinned_ok (conj src_core_schema_extractor_pinned_ok (conj src_core_lexer_pinned_ok src_core_parser_pinned_ok))))). Qed.
